@@ -190,7 +190,7 @@ func Main(kind string) {
 	}
 	o := vh.NewOut(f.Out)
 	defer o.Close()
-	pool := NewPool(4 * time.Second)
+	pool := NewPool(3 * time.Second)
 	defer pool.Close()
 	rn := &runner{o: o, pool: pool, kind: kind}
 
@@ -216,10 +216,12 @@ func Main(kind string) {
 	conf := GenConf{MaxRules: 3, MaxDepth: 3, Nullable: 6, LeftRef: 4, Procs: 20, SpaceAdj: 30}
 	corpus := append(append([]corpusItem{}, corpusC29...), repoCorpus()...)
 	perGrammar := 3
+	maxWords := 16
 	if kind == "c28" {
 		conf = GenConf{MaxRules: 4, MaxDepth: 3, Nullable: 60, LeftRef: 35, Procs: 5, SpaceAdj: 40}
 		corpus = nil
 		perGrammar = 2
+		maxWords = 10
 		for _, it := range corpusC28 {
 			for _, in := range it.inputs {
 				rn.one(Req{G: it.g, Text: it.g.Text(), Input: in, Procs: "-"})
@@ -241,7 +243,7 @@ func Main(kind string) {
 		}
 		text := g.Text()
 		for j := 0; j < perGrammar; j++ {
-			if rn.one(Req{G: g, Text: text, Input: GenInput(rr, g), Procs: g.Procs()}) {
+			if rn.one(Req{G: g, Text: text, Input: GenInput(rr, g, maxWords), Procs: g.Procs()}) {
 				break // rejected at compile time: one case per grammar is enough
 			}
 		}
